@@ -55,6 +55,7 @@ class SimThread:
 class Sched:
     def __init__(self, chooser, budget=60.0, max_events=200000):
         self.chooser = chooser
+        self.pre_op = None         # callable(sim thread) -> exception to raise before its next operation, or None
         self.threads: list[SimThread] = []
         self.by_ident: dict[int, SimThread] = {}
         self.cur: SimThread | None = None
@@ -176,6 +177,11 @@ class Sched:
             e, me.inject = me.inject, None
             self.log("interrupt")
             raise e
+        if self.pre_op is not None:
+            e = self.pre_op(me)      # the harness may deliver an asynchronous exception before this operation
+            if e is not None:
+                self.log("interrupt")
+                raise e
 
     def block(self, pred, timeout):
         """block the calling sim thread until pred() or the virtual deadline; returns True if woken by pred"""
